@@ -248,7 +248,10 @@ func (q *OutQueue) cleanAckedChunks() {
 		}
 	}
 	if len(q.acked) > MaxCachedChunks {
-		q.acked = q.acked[0:MaxCachedChunks]
+		// Keep the most recent acknowledgements. (Keeping the oldest ones froze the list after the first
+		// 128 packets; when the 16-bit sequence number came round to those values again, fresh packets
+		// were taken for acknowledged and dropped unsent.)
+		q.acked = q.acked[len(q.acked)-MaxCachedChunks:]
 	}
 
 	q.checkQueueFull()
